@@ -531,6 +531,22 @@ func init() {
 	}
 	reg("sort.Slice", allocEff(), sortHavoc)
 	reg("sort.Ints", allocEff(), sortHavoc)
+	reg("io/ioutil.WriteFile", pureEff(), func(fc *FnCtx, cc *ssa.CallCommon, args []Value, pos token.Pos, res ssa.Value) Value {
+		return fc.freshErr("writefileerr")
+	})
+	reg("io/ioutil.ReadFile", allocEff(), func(fc *FnCtx, cc *ssa.CallCommon, args []Value, pos token.Pos, res ssa.Value) Value {
+		n := fc.freshConst("readfilelen", SInt)
+		fc.assume(And(Ge(n, IntLit(0)), Le(n, Term{"maxSliceCap", SInt})))
+		data := fc.freshBytes("readfile", n)
+		return retTuple(data, fc.freshErr("readfileerr"))
+	})
+	reg("os.Exit", pureEff(), func(fc *FnCtx, cc *ssa.CallCommon, args []Value, pos token.Pos, res ssa.Value) Value {
+		// the process ends here: nothing after this call is reachable
+		fc.exitReach = append(fc.exitReach, fc.reach[fc.curBlk])
+		fc.seq++
+		fc.facts = append(fc.facts, Fact{blk: fc.curBlk, seq: fc.seq, t: TFalse, isExit: true})
+		return Value{K: KTuple}
+	})
 	reg("runtime.GOMAXPROCS", pureEff(), func(fc *FnCtx, cc *ssa.CallCommon, args []Value, pos token.Pos, res ssa.Value) Value {
 		n := fc.freshConst("gomaxprocs", SInt)
 		fc.assume(And(Ge(n, IntLit(1)), Le(n, IntLit(1<<20))))
